@@ -51,6 +51,10 @@ func (c *Case) overlapClass(o order) string {
 			if !overlapsIn(c.Tgt, a.Path, b.Path) {
 				continue
 			}
+			if aliased(c.Tgt, a.Path, b.Path) {
+				// one cause however the two were declared
+				return c.overlapRelation(o)
+			}
 			via := ""
 			for _, t := range []target{a, b} {
 				if t.Pred < 0 {
@@ -411,10 +415,15 @@ func runCase(ctx context.Context, rep *mon.Reporter, rng *mon.Rand, c *Case, idx
 		c.invokeOK = true
 		var invKeys []string
 		var invOut outcome
+		var invFail *outcome
 		for k := 0; k < 3; k++ {
 			out := c.runInvoke(ctx, b)
 			invokeRuns++
 			invOut = out
+			if out.Kind != "value" && invFail == nil {
+				f := out
+				invFail = &f
+			}
 			invKeys = append(invKeys, out.key())
 			if !c.judge(rep, "invoke", ordStr, expI, out) {
 				conform = false
@@ -426,7 +435,7 @@ func runCase(ctx context.Context, rep *mon.Reporter, rng *mon.Rand, c *Case, idx
 		}
 		if invKeys[0] != invKeys[1] || invKeys[1] != invKeys[2] {
 			// (a panic and an error are both "no value": outcome.key() maps them to "failed")
-			rep.Violation("C15/nondeterministic/invoke/"+c.attribute("invoke", expI, nil), "three Invoke runs of the same compiled workflow on the same input differ:\n"+strings.Join(invKeys, "\n"), c.witness(ordStr, ""))
+			rep.Violation("C15/nondeterministic/invoke/"+c.attribute("invoke", expI, invFail), "three Invoke runs of the same compiled workflow on the same input differ:\n"+strings.Join(invKeys, "\n"), c.witness(ordStr, ""))
 		}
 		// stream mode: full values as single chunks 3x (Stream, Stream, Transform), then two other chunkings, the last one twice
 		type srun struct {
@@ -444,6 +453,7 @@ func runCase(ctx context.Context, rep *mon.Reporter, rng *mon.Rand, c *Case, idx
 			plan = append(plan, srun{sels[rng.Intn(3)], 2})
 		}
 		keys := map[string][]string{}
+		fails := map[string]*outcome{}
 		var full outcome
 		for i, sr := range plan {
 			// assembled: the framework has to make ONE value of the successor's input type out of the chunks
@@ -460,10 +470,10 @@ func runCase(ctx context.Context, rep *mon.Reporter, rng *mon.Rand, c *Case, idx
 			}
 			if assembled {
 				rep.Count("stream_runs_in_which_one_input_value_is_assembled", 1)
-				if out.Kind == "error" && c.invokeOK && !expS.May && !expS.Must && structMergeNeeded(parts) {
+				if out.Kind == "error" && c.invokeOK && !expS.May && !expS.Must && c.concatOfInputTypeNeeded(parts) {
 					// Invoke delivers the value; the streaming run cannot put the partial structs together
 					rep.Violation("C15/invoke-stream-differ/struct-typed-input-assembled-from-several-stream-chunks",
-						fmt.Sprintf("Invoke hands the successor %s; the streaming run (%s) of the same compiled workflow on the same input fails: %s\nthe successor input is assembled from the partial values %s",
+						fmt.Sprintf("Invoke hands the successor %s; the streaming run (%s) of the same compiled workflow on the same input fails: %s\nevery predecessor's mapped values (and the static values) become a value of the input type on their own: %s",
 							expS.key(), []string{"Transform", "Stream", "Collect"}[sr.api], short(out.Err, 500), treesString(parts)),
 						c.witness(ordStr, "stream"))
 					conform = false
@@ -479,6 +489,10 @@ func runCase(ctx context.Context, rep *mon.Reporter, rng *mon.Rand, c *Case, idx
 				ks += "collect" // one assembled value, not the chunks
 			}
 			keys[ks] = append(keys[ks], out.key())
+			if out.Kind != "value" && fails[ks] == nil {
+				f := out
+				fails[ks] = &f
+			}
 			if out.Kind == "value" {
 				rep.Count("stream_chunks_compared", int64(len(out.Chunks)))
 			}
@@ -486,7 +500,7 @@ func runCase(ctx context.Context, rep *mon.Reporter, rng *mon.Rand, c *Case, idx
 		for _, ks := range mon.SortedKeys(keys) {
 			for _, k := range keys[ks][1:] {
 				if k != keys[ks][0] {
-					rep.Violation("C15/nondeterministic/stream/"+c.attribute("stream", nil, nil), "stream runs with the same chunking differ:\n"+strings.Join(keys[ks], "\n"), c.witness(ordStr, "chunking "+ks))
+					rep.Violation("C15/nondeterministic/stream/"+c.attribute("stream", nil, fails[ks]), "stream runs with the same chunking differ:\n"+strings.Join(keys[ks], "\n"), c.witness(ordStr, "chunking "+ks))
 					break
 				}
 			}
@@ -557,11 +571,10 @@ func (c *Case) attribute(mode string, e *expectation, o *outcome) string {
 	if e != nil && (e.May || e.Must) {
 		refClass = e.Class
 	}
-	if sk := c.skipClass(); sk != "" && o != nil && o.Kind != "value" {
-		// a branch skipped predecessors of the successor: when none of them ran no source value is even looked at
-		if sk == "all-mapped-predecessors-skipped-by-a-branch" || (refClass == "" && c.Struct == "") {
-			return sk
-		}
+	failed := o != nil && o.Kind != "value"
+	if sk := c.skipClass(); sk == "all-mapped-predecessors-skipped-by-a-branch" && failed {
+		// a branch skipped every data predecessor of the successor: no source value is even looked at
+		return sk
 	}
 	site := ""
 	if o != nil && o.Kind == "panic" {
@@ -571,6 +584,15 @@ func (c *Case) attribute(mode string, e *expectation, o *outcome) string {
 		// raised by the per-chunk conversion of the stream form of the pre-node converter
 		return "any-typed-successor-receives-stream-chunk-without-values"
 	}
+	assignSite := false
+	for _, fn := range []string{"convertTo", "assignOne", "checkAndExtractToField", "checkAndExtractToMapKey", "settableFieldByName", "instantiateIfNeeded"} {
+		assignSite = assignSite || strings.Contains(site, fn)
+	}
+	if c.tgtThroughEmbPtr() && (assignSite || (failed && refClass == "" && (c.Struct == "" || c.Struct == fRtWithOthers) && site == "")) {
+		// raised while assigning (or an error without any finding of the reference) and a target field is promoted
+		// through an embedded pointer, which is nil in a fresh input value
+		return fTgtEmbPtr
+	}
 	if refClass != "" && c.Struct != fSrcNestedPtr && (strings.Contains(site, "takeOne") || strings.Contains(site, "checkAndExtractFrom") || strings.Contains(site, "fieldMap")) {
 		// a panic while walking the source value belongs to what the reference found on the source side;
 		// several findings in one run: a panic raised by fieldMap itself (a walk error it does not turn into
@@ -578,6 +600,12 @@ func (c *Case) attribute(mode string, e *expectation, o *outcome) string {
 		// to the finding that leaves the walker without a value to inspect
 		noValue := []string{"interface-source-holds-nil", "interface-source-holds-nil-pointer", "nil-pointer-on-source-path",
 			"nil-interface-deeper-below-interface-source", "nil-pointer-deeper-below-interface-source"}
+		if strings.Contains(site, "checkAndExtractFromField") {
+			// raised while a struct field is looked up by name: one nil pointer can be met as a plain pointer by one
+			// mapping and as the embedded pointer behind a promoted field by another; the latter is the field lookup
+			noValue = append([]string{"nil-embedded-pointer-on-source-path", "interface-source-holds-struct-with-nil-embedded-pointer",
+				"nil-embedded-pointer-deeper-below-interface-source"}, noValue...)
+		}
 		noStep := []string{"interface-source-holds-struct-without-the-field", "interface-source-holds-map-with-non-string-key", "interface-source-holds-non-container",
 			"field-missing-deeper-below-interface-source", "non-string-key-map-deeper-below-interface-source", "non-container-deeper-below-interface-source"}
 		prio := append(append([]string(nil), noValue...), noStep...)
@@ -605,7 +633,6 @@ func (c *Case) attribute(mode string, e *expectation, o *outcome) string {
 			}
 		}
 	}
-	failed := o != nil && o.Kind != "value"
 	if mode == "stream" && failed && c.hasRtChecked() && (strings.HasSuffix(site, "newGenericHelper.func") || (site == "" && c.invokeOK)) {
 		// raised while the stream form of the pre-node converter is set up, or an error although the same
 		// compiled workflow conforms under Invoke: the failure is specific to the stream form
@@ -618,8 +645,29 @@ func (c *Case) attribute(mode string, e *expectation, o *outcome) string {
 		return c.Struct
 	case refClass != "":
 		return refClass
+	case c.tgtThroughEmbPtr():
+		return fTgtEmbPtr
+	case c.skipClass() != "":
+		return c.skipClass()
 	}
 	return "no-known-hazard"
+}
+
+const fTgtEmbPtr = "target-field-promoted-through-embedded-pointer"
+
+// tgtThroughEmbPtr: a declared target names a field that is promoted through an embedded pointer.
+func (c *Case) tgtThroughEmbPtr() bool {
+	for _, m := range c.Maps {
+		if len(m.tgt.EmbPtrs) > 0 {
+			return true
+		}
+	}
+	for _, s := range c.Statics {
+		if len(s.tgt.EmbPtrs) > 0 {
+			return true
+		}
+	}
+	return false
 }
 
 // judge compares one run with the reference; true = the run conforms.
@@ -851,6 +899,35 @@ func modeDiffClass(e *expectation) string {
 		return "absent-source-map-key"
 	}
 	return e.Class
+}
+
+// concatOfInputTypeNeeded: in a streaming run the mapped values of every predecessor that ran (one chunk
+// each here) and the static values arrive as separate chunks; when none ran there is one chunk without
+// values. Does making one input value out of them mean putting together two values of the input type (or
+// of a struct / pointer type below a map key) that both carry something? Pointers count even when they
+// point to a zero struct, an `any` when it is not nil.
+func (c *Case) concatOfInputTypeNeeded(parts []*tree) bool {
+	chunks := len(parts)
+	ran := false
+	for i := range c.Preds {
+		ran = ran || !c.skipped(i)
+	}
+	if !ran {
+		chunks++
+	}
+	nonEmpty := 0
+	for _, p := range parts {
+		if !p.empty() {
+			nonEmpty++
+		}
+	}
+	switch {
+	case c.Tgt.Kind() == reflect.Ptr:
+		return chunks >= 2
+	case c.Tgt.Kind() == reflect.Struct, c.Tgt.Kind() == reflect.Interface:
+		return nonEmpty >= 2
+	}
+	return structMergeNeeded(parts)
 }
 
 // structMergeNeeded: putting the partial values together means merging two non-zero struct
